@@ -314,6 +314,10 @@ func (e *env) scenario1(seed uint64, idx int) {
 				c.timeout = 6 * time.Second
 			}
 			if i == 0 {
+				if c.plan == pPreCancel { // would return before it registers anything
+					c.plan = pAnswer
+					c.ctx, c.cancel = context.WithCancel(context.Background())
+				}
 				dupExpected[c.k] = true
 			}
 			start(c)
@@ -714,10 +718,8 @@ func buildLabels(evs []h.SendEv, g2c map[int64]int, seed uint32, callers []*call
 			}
 			out = append(out, fmt.Sprintf("recv %d", k))
 		case "harness.return":
-			kk := ev.Int(0)
-			if registered[kk] && !waited[kk] {
-				out = append(out, fmt.Sprintf("sendfail %d", kk))
-			}
+			// a send that failed after the registration has released its slot itself
+			// (deferred popHandler in sendAsyncWithTimeout = an `abandon` label above)
 		}
 	}
 	return out, ""
@@ -823,7 +825,7 @@ func main() {
 			break
 		}
 	}
-	for _, b := range []string{"label:setctr", "label:nextid", "label:register", "label:pop", "label:deliver", "label:recv", "label:abandon", "label:sendfail",
+	for _, b := range []string{"label:setctr", "label:nextid", "label:register", "label:pop", "label:deliver", "label:recv", "label:abandon",
 		"outcome:ok", "outcome:timeout", "outcome:cancelled", "outcome:wrong-type-error", "outcome:refused-duplicate", "peer:unsolicited", "peer:late-response"} {
 		if r.Distribution[b] == 0 {
 			r.Unreached = append(r.Unreached, b)
